@@ -669,6 +669,34 @@ def get_path(cfg, path):
     return cur
 
 
+def result_mutation_history(chk):
+    """History twin: the effective configuration handed to a caller is the caller's; what they do to it (set a leaf, extend a list) must
+    not change what a later apply_default_config takes from the packaged defaults."""
+    import copy
+    import cij.io.config.config as cfgmod
+    users = [{"qha": {"input": "input01"}, "elast": {"input": "elast.dat"}}, {"qha": {}, "elast": {}}, {}]
+    try:
+        for u in users:
+            first = cfgmod.apply_default_config(copy.deepcopy(u))
+            want = copy.deepcopy(first)
+            # the caller edits parts of the result that came from the defaults
+            first.setdefault("elast", {}).setdefault("settings", {}).setdefault("symmetry", {})["system"] = "cubic"
+            first.setdefault("qha", {}).setdefault("settings", {})["NT"] = 31
+            out = first.setdefault("output", {})
+            if isinstance(out.get("pressure_base"), list):
+                out["pressure_base"].append("edited-by-the-caller")
+            second = cfgmod.apply_default_config(copy.deepcopy(u))
+            if second != want:
+                diff = [k for k in ("qha", "elast", "output") if second.get(k) != want.get(k)]
+                chk.violation("history:result-mutation", "apply_default_config(%r) after the caller edited the result of an earlier call (symmetry.system, NT, one more "
+                              "output keyword) no longer takes the unspecified leaves from the packaged defaults: sections %s differ, e.g. NT = %r, system = %r"
+                              % (u, diff, second.get("qha", {}).get("settings", {}).get("NT"), second.get("elast", {}).get("settings", {}).get("symmetry", {}).get("system")), dict(user=u))
+                return
+        chk.side_check("history twin: editing a returned effective configuration does not reach later apply_default_config calls (3 user configurations)", True)
+    except Exception as e:
+        chk.violation("history:result-mutation:raises", "apply_default_config raises %s: %s in the edit-then-call-again history" % (type(e).__name__, str(e)[:100]), {})
+
+
 def main():
     tier = os.environ.get("VERIF_TIER", "quick")
     if len(sys.argv) > 1:
@@ -680,6 +708,7 @@ def main():
     rng = random.Random(seed() + 16)
     merge_part(chk, tier, rng)
     validation_part(chk, tier, rng)
+    result_mutation_history(chk)
     chk.bound(merge="%d seeded skeleton pairs (depth <= 3, <= 3 keys per level, 4-name alphabet) + 3 user skeletons over the packaged defaults; "
                     "leaves symbolic ints" % (10 if tier == "quick" else 120), per_condition_timeout_s=60, fields=len(DOC))
     chk.assume("merge skeletons exclude dict-vs-leaf clashes on a shared key (undefined by the property)")
